@@ -7,11 +7,13 @@ from harness.lib import zl, cz, clist
 
 ID = 'C08'
 RULE = ('one case = one operation (pileup, bedgraph pileup, mask, merge with distance, sort by three routes, count_overlap, '
-        'intersect, unique_intersect, jaccard, forbes, clip, extend_to_size; arithmetics and Geometry routes) on interval '
-        'multisets of one contig; every multiset of <=3 non-empty intervals on contigs of size 1..4 (quick) / 1..6 (thorough) '
-        'for the unary operations and all merge distances 0..size, all pairs of such sets for size <=2 (quick) / <=3 (thorough), '
-        'sampled beyond (sizes up to 60, up to 14 intervals, empty intervals, empty sets); non-trivial = two intervals of the '
-        'input share an endpoint, nest or overlap, or an interval touches position 0 or the contig end')
+        'intersect, unique_intersect, jaccard, forbes, clip, extend_to_size; Geometry routes on a contig that is chromosome r '
+        'of a 1-5 chromosome genome) on interval multisets of one contig; unary operations: every multiset of <=3 non-empty '
+        'intervals on contigs of size 1..4 (quick) / 1..6 (thorough) with every merge distance 0..size; binary operations: all '
+        'pairs of such sets for size <=2 (quick) / <=3 (thorough: count_overlap and intersect all pairs, the others 15%), sampled '
+        'beyond (sizes up to 60, up to 14 intervals, empty intervals, empty sets, internally disjoint sets); strands +/- for '
+        'extend_to_size; non-trivial = two intervals of the input share an endpoint, nest or overlap, or an interval touches '
+        'position 0 or the contig end')
 EXHAUSTIVE = {'quick': False, 'thorough': False}
 TIE = 'translator+correspondence'
 TIE_DETAIL = ('translate/gen_c08.py regenerates Gen/C08.v (28 per-element kernels of intervals.py, similarity_measures.py, '
@@ -20,14 +22,23 @@ TIE_DETAIL = ('translate/gen_c08.py regenerates Gen/C08.v (28 per-element kernel
 ASSUMPTIONS = ['npstructures RunLength2dArray.from_intervals/.sum(axis=0), RunLengthArray.to_array and indexing a run-length '
                'mask by intervals are modelled by their event meaning (external library); GenomicRunLengthArray.from_intervals '
                'is modelled by its assertions and its meaning (its internals are the subject of C09)',
-               'floats returned by jaccard/forbes are compared with the exact fraction to 1e-12']
-PARTIAL = ['C08_clip_inside_partial: clip keeps an interval inside the contig only when it meets the contig (start <= size, stop >= 0)',
-           'C08_sort_lex_partial: the StringEncoding route of sort_intervals orders by (chromosome, start) only']
+               'GlobalOffset (chromosome offsets = cumulative sizes, slicing a genome-wide array per chromosome) is modelled by '
+               'goff / slice (its internals are the subject of C10)',
+               'floats returned by jaccard/forbes are compared with the exact fraction to 1e-12',
+               'rows of A without bases (start = stop) in unique_intersect are outside the property: the model follows the '
+               'library (kept iff bases p-1 and p are covered) and the Spec compares only the rows with bases',
+               'pairs of interval sets are enumerated exhaustively only for contigs of size <= 3 (<= 2 in the quick tier); the '
+               'theorems cover all sizes']
+PARTIAL = ['C08_model_implies_spec_partial: the link model_ok -> spec_ok excludes arithmetics.jaccard / forbes on an interval set '
+           'without entries (the library raises: known finding C08-similarity-empty-set-raises; refuted without the guard)',
+           'C08_clip_inside_partial / C08_sort_lex_partial describe the code before the repairs fc449e4 / 3a58fb5 (history); the '
+           'current code satisfies C08_clip_inside_fixed / C08_sort_lex_fixed']
 PER_FILE = 64
 
 OPCODE = {'pileup': 1, 'pileup_bg': 2, 'mask': 3, 'merge': 4, 'sort_key': 5, 'sort_lex': 6, 'sort_geom': 7,
           'count_overlap': 8, 'intersect': 9, 'unique_intersect': 10, 'jaccard': 11, 'forbes': 12, 'clip': 13, 'extend': 14,
-          'jaccard_geom': 15}
+          'jaccard_geom': 15, 'pileup_geom': 16, 'mask_geom': 17, 'merge_geom': 18}
+GNAMES = ['chrA', 'chrB', 'chrC', 'chrD', 'chrE']
 NAMES = ['chr1', 'chr10', 'chr2', 'chrX', 'chr2_alt']
 
 
@@ -52,6 +63,13 @@ def _case(op, route, size, a, b=None, d=0, **kw):
     return c
 
 
+def _genome(rng, size):
+    """A genome in which the contig of this case is chromosome number `rank`: (sizes, rank)."""
+    pre = [rng.randint(1, 7) for _ in range(rng.choice([0, 0, 1, 2]))]
+    post = [rng.randint(1, 7) for _ in range(rng.choice([0, 0, 1, 2]))]
+    return dict(sizes=pre + [size] + post, rank=len(pre))
+
+
 def _unary(cases, rng, size, ivs, dists=None, geom=True):
     """All unary single-contig operations on one multiset (given as (start, stop) pairs, arbitrary order)."""
     a = [(0, s, e) for s, e in ivs]
@@ -60,15 +78,15 @@ def _unary(cases, rng, size, ivs, dists=None, geom=True):
     cases.append(_case('pileup_bg', 'arith', size, a))
     cases.append(_case('mask', 'arith', size, a))
     if g_ok:
-        cases.append(_case('pileup', 'geom', size, a))
-        cases.append(_case('mask', 'geom', size, a))
+        cases.append(_case('pileup_geom', 'geom', size, a, **_genome(rng, size)))
+        cases.append(_case('mask_geom', 'geom', size, a, **_genome(rng, size)))
     if all(s < e for s, e in ivs):
         # merge wants the input sorted on start; ties keep a random order
         srt = sorted(a, key=lambda t: t[1])
         for d in (dists if dists is not None else range(size + 1)):
             cases.append(_case('merge', 'arith', size, srt, d=d))
             if g_ok and d in (0, 1, size):
-                cases.append(_case('merge', 'geom', size, srt, d=d))
+                cases.append(_case('merge_geom', 'geom', size, srt, d=d, **_genome(rng, size)))
 
 
 def _binary(cases, rng, size, A, B, ops=('count_overlap', 'intersect', 'unique_intersect', 'jaccard', 'forbes'), geom=True):
@@ -80,11 +98,7 @@ def _binary(cases, rng, size, A, B, ops=('count_overlap', 'intersect', 'unique_i
             sa, sb = sorted(a), sorted(b)
             cases.append(_case(op, 'arith', size, sa, sb))
             if op == 'jaccard' and geom and all(s < size for _, s, e in a + b):
-                cases.append(_case('jaccard_geom', 'geom', size, sa, sb))
-        elif op == 'unique_intersect':
-            # an interval without bases overlaps nothing; the library's answer for such rows of A depends on
-            # npstructures' indexing of a run-length array by an empty range, outside the property
-            cases.append(_case(op, 'arith', size, [t for t in a if t[1] < t[2]], b))
+                cases.append(_case('jaccard_geom', 'geom', size, sa, sb, **_genome(rng, size)))
         else:
             cases.append(_case(op, 'arith', size, a, b))
 
@@ -144,7 +158,8 @@ def _sort_cases(cases, rng, n_cases, tier):
         perm3 = names[:]
         rng.shuffle(perm3)
         if n and not any('_' in x for x in names):       # GenomeContext drops names with '_' (C12's subject)
-            cases.append(dict(op='sort_geom', route='geom', size=size, d=0, a=a, b=[], names=names, order=perm3))
+            cases.append(dict(op='sort_geom', route='geom', size=size, d=0, a=a, b=[], names=names, order=perm3,
+                              sizes=[size + rng.choice([0, 0, 1, 3]) for _ in perm3], rank=0))
 
 
 def _clip_extend(cases, rng, n_cases):
@@ -157,7 +172,7 @@ def _clip_extend(cases, rng, n_cases):
             e = rng.randint(s, size + 4)
             a.append((0, s, e))
         cases.append(_case('clip', 'arith', size, a))
-        cases.append(_case('clip', 'geom', size, a))
+        cases.append(_case('clip', 'geom', size, a, **_genome(rng, size)))
         # only intervals that meet the contig (the class the pinned clip handles)
         a2 = [(0, s, e) for _, s, e in a if s <= size and e >= 0]
         cases.append(_case('clip', 'arith', size, a2))
@@ -170,7 +185,7 @@ def _clip_extend(cases, rng, n_cases):
             b6.append((rng.randint(0, 1), s, e))
         cases.append(_case('extend', 'arith', size, b6, d=frag))
         cases.append(_case('extend', 'arith_vec', size, b6, d=frag))
-        cases.append(_case('extend', 'geom', size, b6, d=frag))
+        cases.append(_case('extend', 'geom', size, b6, d=frag, **_genome(rng, size)))
 
 
 def generate(tier, seed):
@@ -183,10 +198,7 @@ def generate(tier, seed):
         for ms in _multisets(S, 3):
             ms = ms[:]
             rng.shuffle(ms)
-            if S <= 4:
-                _unary(cases, rng, S, ms)
-            else:
-                _unary(cases, rng, S, ms, dists=sorted({0, 1, rng.randint(0, S), S}))
+            _unary(cases, rng, S, ms)            # every merge distance 0..S
     if quick:
         for S in (5, 6):
             allm = list(_multisets(S, 3))
@@ -228,6 +240,13 @@ def generate(tier, seed):
             A = _disjoint(rng, S, A)
             B = _disjoint(rng, S, B)
         _binary(cases, rng, S, A, B)
+    # ---- unique_intersect with rows of A that have no bases (start = stop): not in the property; the model follows the library
+    for i in range(300 if quick else 2000):
+        S = rng.choice([2, 3, 4, 5, 6])
+        basee = _ivs(S, empty=True)
+        A = [rng.choice(basee) for _ in range(rng.randint(1, 3))]
+        B = [rng.choice(_ivs(S)) for _ in range(rng.randint(0, 3))]
+        _binary(cases, rng, S, A, B, ops=('unique_intersect',))
     _sort_cases(cases, rng, 300 if quick else 2000, tier)
     _clip_extend(cases, rng, 200 if quick else 1200)
     return cases
@@ -253,6 +272,15 @@ def _err(e):
     return dict(err=2, msg='%s: %s' % (type(e).__name__, str(e)[:120]))
 
 
+def _layout(case):
+    """(chromosome sizes of the genome, rank of the contig) — a one-chromosome genome unless the case says otherwise."""
+    if 'sizes' in case:
+        return list(case['sizes']), int(case.get('rank', 0))
+    if case['op'] == 'sort_geom':
+        return [case['size']] * len(case['order']), 0
+    return [case['size']], 0
+
+
 def observe(case):
     import warnings
     warnings.simplefilter('ignore')
@@ -267,11 +295,14 @@ def observe(case):
 
     op, route, size, d = case['op'], case['route'], case['size'], case['d']
     names = case.get('names', ['chr1'])
+    sizes, rank = _layout(case)
+    contig = GNAMES[rank] if route == 'geom' and not op.startswith('sort') else 'chr1'
+    genome = {GNAMES[i]: z for i, z in enumerate(sizes)}
 
     def mk(rows, chrom=None):
         if not rows:
             return mk([[0, 0, 1]], chrom)[:0]
-        ch = [names[t] for t, s, e in rows] if op.startswith('sort') else ['chr1'] * len(rows)
+        ch = [names[t] for t, s, e in rows] if op.startswith('sort') else [contig] * len(rows)
         if chrom is not None:
             ch = chrom(ch)
         return Interval(ch, np.array([s for t, s, e in rows], dtype=int), np.array([e for t, s, e in rows], dtype=int))
@@ -286,8 +317,10 @@ def observe(case):
             if route == 'arith':
                 r = ar.get_pileup(mk(a), size)
                 return dict(err=0, dense=[int(x) for x in r.to_array()])
-            r = Geometry({'chr1': size}).get_pileup(mk(a))
-            return dict(err=0, dense=[int(x) for x in np.asarray(r.to_dict()['chr1'])])
+            raise RuntimeError('route')
+        if op == 'pileup_geom':
+            r = Geometry(genome).get_pileup(mk(a))
+            return dict(err=0, dense=[int(x) for x in np.asarray(r.to_dict()[contig])])
         if op == 'pileup_bg':
             r = bgm.get_pileup(mk(a), size)
             return dict(err=0, dense=[int(x) for x in r.to_array()])
@@ -295,14 +328,14 @@ def observe(case):
             if route == 'arith':
                 r = ar.get_boolean_mask(mk(a), size)
                 return dict(err=0, dense=[int(bool(x)) for x in r.to_array()])
-            r = Geometry({'chr1': size}).get_mask(mk(a))
-            return dict(err=0, dense=[int(bool(x)) for x in np.asarray(r.to_dict()['chr1'])])
+            raise RuntimeError('route')
+        if op == 'mask_geom':
+            r = Geometry(genome).get_mask(mk(a))
+            return dict(err=0, dense=[int(bool(x)) for x in np.asarray(r.to_dict()[contig])])
         if op == 'merge':
-            if route == 'arith':
-                r = ar.merge_intervals(mk(a), d)
-            else:
-                r = Geometry({'chr1': size}).merge_intervals(mk(a), d)
-            return dict(err=0, ivs=ivs_out(r))
+            return dict(err=0, ivs=ivs_out(ar.merge_intervals(mk(a), d)))
+        if op == 'merge_geom':
+            return dict(err=0, ivs=ivs_out(Geometry(genome).merge_intervals(mk(a), d)))
         if op in ('sort_key', 'sort_lex', 'sort_geom'):
             order = case['order']
             rank = {n: i for i, n in enumerate(order)}
@@ -314,7 +347,7 @@ def observe(case):
                 enc = StringEncoding(order)
                 r = ar.sort_intervals(mk(a, chrom=enc.encode))
             else:
-                r = Geometry({n: size for n in order}).sort(mk(a))
+                r = Geometry({n: z for n, z in zip(order, sizes)}).sort(mk(a))
             if route == 'lex':
                 chroms = [order[int(c)] for c in np.asarray(r.chromosome.raw()).ravel().tolist()]
             else:
@@ -331,7 +364,7 @@ def observe(case):
             if route == 'arith':
                 f = getattr(ar, op)({'chr1': size}, mk(a), mk(b))
             else:
-                f = Geometry({'chr1': size}).jaccard(mk(a), mk(b))
+                f = Geometry(genome).jaccard(mk(a), mk(b))
             f = float(f)
             if math.isnan(f):
                 return dict(err=0, kind=1, num=0, den=1)
@@ -343,12 +376,12 @@ def observe(case):
             if route == 'arith':
                 r = ivm.clip(mk(a), size)
             else:
-                r = Geometry({'chr1': size}).clip(mk(a))
+                r = Geometry(genome).clip(mk(a))
             return dict(err=0, ivs=ivs_out(r))
         if op == 'extend':
             n = len(a)
             if n:
-                b6 = Bed6(['chr1'] * n, np.array([s for t, s, e in a], dtype=int), np.array([e for t, s, e in a], dtype=int),
+                b6 = Bed6([contig] * n, np.array([s for t, s, e in a], dtype=int), np.array([e for t, s, e in a], dtype=int),
                           ['n%d' % i for i in range(n)], [0] * n, ['+' if t == 1 else '-' for t, s, e in a])
             else:
                 b6 = Bed6(['chr1'], np.array([0]), np.array([1]), ['n'], [0], ['+'])[:0]
@@ -357,7 +390,7 @@ def observe(case):
             elif route == 'arith_vec':
                 r = ivm.extend_to_size(b6, d, np.full(n, size, dtype=int))
             else:
-                r = Geometry({'chr1': size}).extend_to_size(b6, d)
+                r = Geometry(genome).extend_to_size(b6, d)
             strands = [s.to_string() if hasattr(s, 'to_string') else str(s) for s in r.strand.ravel()] if n else []
             return dict(err=0, ivs=ivs_out(r, lambda i, r: 1 if strands[i] == '+' else 0))
         raise RuntimeError('unknown op ' + op)
@@ -379,9 +412,10 @@ def _ranked(case):
 
 
 def to_coq(case, o):
-    return ('{| k_op := %s; k_size := %s; k_d := %s; k_a := %s; k_b := %s; k_err := %s; k_dense := %s; k_ivs := %s; '
+    sizes, rank = _layout(case)
+    return ('{| k_op := %s; k_size := %s; k_d := %s; k_sizes := %s; k_rank := %s; k_a := %s; k_b := %s; k_err := %s; k_dense := %s; k_ivs := %s; '
             'k_num := %s; k_den := %s; k_kind := %s |}' % (
-                cz(OPCODE[case['op']]), cz(case['size']), cz(case['d']), _tivs(_ranked(case)), _tivs(case['b']),
+                cz(OPCODE[case['op']]), cz(case['size']), cz(case['d']), zl(sizes), cz(rank), _tivs(_ranked(case)), _tivs(case['b']),
                 cz(o.get('err', 2)), zl(o.get('dense', [])), _tivs(o.get('ivs', [])),
                 cz(o.get('num', 0)), cz(o.get('den', 1)), cz(o.get('kind', 0))))
 
@@ -404,7 +438,8 @@ def nontrivial(case, o):
 
 
 def describe(case, o):
-    return dict(op=case['op'], route=case['route'], size=case['size'], d=case['d'], a=_ranked(case), b=case['b'], observed=o)
+    return dict(op=case['op'], route=case['route'], size=case['size'], d=case['d'], a=_ranked(case), b=case['b'],
+                genome=_layout(case), observed=o)
 
 
 def explain(case, o):
@@ -448,16 +483,8 @@ def _only_stop_order_wrong(case, o):
 
 def finding(case, o):
     op, route = case['op'], case['route']
-    if op == 'sort_lex' and _only_stop_order_wrong(case, o):
-        return 'C08-sort-lexsort-ignores-stop'
-    if op == 'sort_geom' and _only_stop_order_wrong(case, o):
-        return 'C08-geometry-sort-ignores-stop'
-    if op == 'clip' and o.get('err') == 0:
-        size = case['size']
-        outside = [(s, e) for _, s, e in case['a'] if s > size or e < 0]
-        pinned = [[0, max(0, s), min(size, e)] for _, s, e in case['a']]
-        if outside and o['ivs'] == pinned:
-            return 'C08-clip-outside-contig'
+    # (the three repaired defects — lexsort / Geometry.sort ignoring the stop, clip outside the contig — have no matcher
+    #  any more: if they come back they are violations)
     if op in ('jaccard', 'forbes') and route == 'arith' and o.get('err') == 2 and (not case['a'] or not case['b']) \
             and o.get('msg', '').startswith('ValueError'):
         return 'C08-similarity-empty-set-raises'
@@ -477,11 +504,11 @@ def search(tier, seed, disagreeing):
         for S in range(1, 5):
             for ms in _multisets(S, 3):
                 tmp = []
-                if op in ('pileup', 'pileup_bg', 'mask', 'merge'):
+                if op in ('pileup', 'pileup_bg', 'mask', 'merge', 'pileup_geom', 'mask_geom', 'merge_geom'):
                     _unary(tmp, rng, S, ms)
-                elif op in ('count_overlap', 'intersect', 'unique_intersect', 'jaccard', 'forbes'):
+                elif op in ('count_overlap', 'intersect', 'unique_intersect', 'jaccard', 'forbes', 'jaccard_geom'):
                     for B in rng.sample(list(_multisets(S, 2)), min(6, len(list(_multisets(S, 2))))):
-                        _binary(tmp, rng, S, ms, B, ops=(op,))
+                        _binary(tmp, rng, S, ms, B, ops=('jaccard' if op == 'jaccard_geom' else op,))
                 out += [c for c in tmp if c['op'] == op and c['route'] == route]
         if op.startswith('sort'):
             _sort_cases(out, rng, 200, tier)
